@@ -7,10 +7,7 @@ From SK Require Import lib.Tok lib.LGraph lib.StrJoin model.C10_Model proof.C10_
 Import ListNotations.
 Local Open Scope Z_scope.
 
-Definition okord (o : Z) : bool := (o =? 2) || (o =? 3) || (o =? 4) || (o =? 6).
-(** the mapped atoms in index order, as (node id, attributes) and as (atom index, node id) *)
-Fixpoint numT (l : list ratom) : list (N * natt) :=
-  match l with [] => [] | a :: r => (if r_map a =? 0 then [] else [(Z.to_N (r_map a), atom_att a)]) ++ numT r end.
+(** the mapped atoms in index order as (atom index, node id) *)
 Fixpoint i2T (idx : N) (l : list ratom) : list (N * N) :=
   match l with [] => [] | a :: r => (if r_map a =? 0 then [] else [(idx, Z.to_N (r_map a))]) ++ i2T (N.succ idx) r end.
 
@@ -167,3 +164,18 @@ Proof.
     destruct (N.eqb_spec u v); [contradiction|]. simpl. exact Ho.
 Qed.
 End MolOk.
+
+Theorem rsmi_graph_mol_ok (m : rmol) : rdmol_ok m = true -> mol_ok (mol_to_graph m true true) = true.
+Proof.
+  unfold rdmol_ok. rewrite !andb_true_iff. intros [[[H1 H2] H3] H4]. apply mol_to_graph_mol_ok.
+  - exact H1.
+  - intros a Ha. rewrite forallb_forall in H2. apply (H2 a Ha).
+  - intros b e o Hin. rewrite forallb_forall in H3. apply (H3 (b, e, o) Hin).
+  - apply nodupb_NoDup. exact H4.
+Qed.
+
+Local Open Scope string_scope.
+Example rsmi_graph_mol_ok_ex :
+  let m : rmol := ([RAt (s2l "C") false 3 0 11; RAt (s2l "Cl") false 0 0 0; RAt (s2l "O") false 0 (-1) 12], [(0%N, 1%N, 2); (0%N, 2%N, 2)]) in
+  rdmol_ok m = true /\ node_ids (mol_to_graph m true true) = [11; 12]%N /\ mol_ok (mol_to_graph m true true) = true.
+Proof. vm_compute. repeat split. Qed.
